@@ -662,3 +662,41 @@ def u12(ctx):
     if n_fn < 20:
         raise AnalysisError("only %d store methods analysed (confirmed: >= 20)" % n_fn)
     return obs
+
+
+@rule("C06", "U13", floor=4, kind="N",
+      desc="a UID is looked up among the members of its own collection: the uid maps are per store object (same obligations "
+           "as C05/L7) - a class-level map makes a UID held in another calendar refuse a write here, and a delete there "
+           "release a UID that is still held here")
+def u13(ctx):
+    from .c05 import l7
+    return l7(ctx)
+
+
+@rule("C06", "U14", floor=2, kind="S",
+      desc="the reverse map names the current holder: _scan_uids stores `R[uid] = (name, etag)` by plain assignment - an "
+           "insert-if-absent (setdefault, `if uid not in R`) keeps a stale holder, whose release later in the same scan "
+           "frees a UID that a live resource holds")
+def u14(ctx):
+    obs = []
+    for cq in STORES:
+        fi = ctx.home_method(cq, "_scan_uids")
+        cfg = ctx.cfg(fi)
+        fwd, rev = map_names(ctx, cq)
+        plain = [n for n in cfg.stmt_nodes() if n.kind == "stmt" and isinstance(n.ast, ast.Assign)
+                 and any(isinstance(t, ast.Subscript) and dotted(t.value) == rev for t in n.ast.targets)]
+        soft = [n for n in cfg.stmt_nodes() for c in n.calls() if isinstance(c.func, ast.Attribute) and c.func.attr == "setdefault" and dotted(c.func.value) == rev]
+        cond = []
+        for n in plain:
+            for t, pol in cfg.required_conditions(n):
+                if isinstance(t, ast.Compare) and len(t.ops) == 1 and isinstance(t.ops[0], (ast.In, ast.NotIn)) and dotted(t.comparators[0]) == rev:
+                    cond.append(n)
+        if not plain and not soft:
+            raise AnalysisError("%s._scan_uids: no write to the reverse map found" % cq)
+        ok = bool(plain) and not soft and not cond
+        obs.append(ctx.ob(ok, fi.qualname, fi.where, "reverse map entry is overwritten by the current holder",
+                          "%s[uid] = (name, etag)" % rev.split(".")[-1],
+                          "%s._scan_uids inserts into %s only when the UID is absent (`%s`): when the UID moved to another resource the stale "
+                          "entry stays, and the release of the old holder later in the scan deletes the UID although a live resource holds it"
+                          % (cq.split(".")[-1], rev.split(".")[-1], src((soft or cond or plain)[0].ast)[:60])))
+    return obs
